@@ -174,6 +174,7 @@ func NewSalsa20BlockCrypt(key []byte) (BlockCrypt, error) {
 //go:nosplit
 func (c *salsa20BlockCrypt) Encrypt(dst, src []byte) {
 	if len(src) < 8 {
+		copy(dst, src) // too short to carry a nonce: nothing to encrypt, but dst must still receive the bytes
 		return
 	}
 	salsa20.XORKeyStream(dst[8:], src[8:], src[:8], &c.key)
@@ -185,6 +186,7 @@ func (c *salsa20BlockCrypt) Encrypt(dst, src []byte) {
 //go:nosplit
 func (c *salsa20BlockCrypt) Decrypt(dst, src []byte) {
 	if len(src) < 8 {
+		copy(dst, src) // mirror of Encrypt for packets shorter than the nonce
 		return
 	}
 	salsa20.XORKeyStream(dst[8:], src[8:], src[:8], &c.key)
